@@ -248,6 +248,23 @@ impl<S: BuildHasher> IndexMap<S> {
 	}
 }
 
+#[cfg(json_syntax_verif)]
+impl<S> IndexMap<S> {
+	/// Verification hook (read-only): `(rep, other)` of every bucket.
+	pub fn verif_dump(&self) -> Vec<(usize, Vec<usize>)> {
+		let mut result = Vec::new();
+
+		unsafe {
+			for bucket in self.table.iter() {
+				let indexes = bucket.as_ref();
+				result.push((indexes.rep, indexes.other.clone()))
+			}
+		}
+
+		result
+	}
+}
+
 #[cfg(test)]
 mod tests {
 	use super::*;
